@@ -146,6 +146,26 @@ class Tracer:
 
     def index_event(self, arg):
         """if arg designates coeffs[...] return ('idx', concrete index) with post-increment side effects applied"""
+        # a pointer cursor over the coefficient array: `MillerTriple* c = this->coeffs; ... *c++ ... *c`
+        cp = getattr(self, 'cptr', {})
+        if cp:
+            for x in walk(arg):
+                if x.get('k') == 'un' and x.get('op') == '*':
+                    inner = strip(x['e'])
+                    while isinstance(inner, dict) and inner.get('k') in ('cast', 'load') and isinstance(inner.get('e'), dict):
+                        inner = strip(inner['e'])
+                    step = 0
+                    post = True
+                    if isinstance(inner, dict) and inner.get('k') == 'un' and inner.get('op') in ('++', '--'):
+                        step = 1 if inner['op'] == '++' else -1
+                        post = bool(inner.get('post'))
+                        inner = strip(inner['e'])
+                        while isinstance(inner, dict) and inner.get('k') in ('cast', 'load') and isinstance(inner.get('e'), dict):
+                            inner = strip(inner['e'])
+                    if isinstance(inner, dict) and inner.get('k') == 'ref' and inner.get('id') in cp:
+                        cur = cp[inner['id']]
+                        cp[inner['id']] = cur + step
+                        return cur if post else cur + step
         for x in walk(arg):
             if x.get('k') == 'index' and pr.norm_obj(pr.canon(x['base'], self.binds)).endswith('.coeffs'):
                 idx = x['idx']
@@ -189,6 +209,13 @@ class Tracer:
                 idx = None
                 for a in e.get('args', []):
                     i = self.index_event(a)
+                    if i is None:
+                        # a reference local bound to coeffs[...] when it was declared (`const MillerTriple& line = g2.coeffs[idx++];`)
+                        ua = strip(a)
+                        while isinstance(ua, dict) and ua.get('k') in ('cast', 'load') and isinstance(ua.get('e'), dict):
+                            ua = strip(ua['e'])
+                        if isinstance(ua, dict) and ua.get('k') == 'ref' and ua.get('rk') == 'local':
+                            i = getattr(self, 'refidx', {}).get(ua.get('id'))
                     if i is not None:
                         idx = i
                 self.emit(STEP[name], group, idx, loc_str(e))
@@ -250,9 +277,16 @@ class Tracer:
                         val = self.val(v['init'], zero_calls=0 if t.get('k') == 'bool' else None)
                         if val is not None:
                             self.env[v['id']] = val
+                    elif t.get('k') == 'ptr' and pr.norm_obj(pr.canon(v['init'], self.binds)).endswith('.coeffs'):
+                        # a cursor over the coefficient array, starting at its first element
+                        self.__dict__.setdefault('cptr', {})[v['id']] = 0
                     elif t.get('k') == 'ref':
                         # `Pair& pair = pairs[j]`: one generic pair of that array
                         self.binds[v['id']] = 'pair'
+                        # `const MillerTriple& line = g2.coeffs[idx++]`: the coefficient is selected (and the cursor stepped) here
+                        ci = self.index_event(v['init'])
+                        if ci is not None:
+                            self.__dict__.setdefault('refidx', {})[v['id']] = ci
                     else:
                         self.expr_stmt(v['init'], group)
         elif k == 'expr':
